@@ -10,7 +10,8 @@
 (* removal of an object, a different Section type or name, definitions /   *)
 (* references / value origins that are equal, differ in case and           *)
 (* whitespace only, or differ; other dtype, unit, uncertainty; value lists *)
-(* that overlap, are disjoint, empty or unconvertible.  A conflict can so  *)
+(* that overlap, are disjoint, empty, unconvertible or convertible only in  *)
+(* their first element; units that differ in case only.  A conflict can so  *)
 (* sit at any depth and sibling position of either tree.                   *)
 (***************************************************************************)
 EXTENDS Naturals, Sequences, FiniteSets, TLC, Json
@@ -21,23 +22,23 @@ Secs == {"D", "Ds", "S", "Ss"}
 Props == {"Dpa", "Dpb", "Dspa", "Spa", "Spb", "Sspa"}
 All == Secs \cup Props
 Base(x) == IF x \in Secs
-           THEN [present |-> TRUE, name |-> "a", type |-> "t", definition |-> "none", reference |-> "none"]
+           THEN [present |-> TRUE, name |-> "a", type |-> "t", definition |-> "X", reference |-> "none"]
            ELSE [present |-> TRUE, name |-> IF x \in {"Dpb", "Spb"} THEN "b" ELSE "a", dtype |-> "int",
                  vals |-> IF x \in {"Dpa", "Dpb", "Dspa"} THEN "v12" ELSE "v23",
-                 unit |-> "none", uncertainty |-> "none", definition |-> "none", reference |-> "none", value_origin |-> "none"]
+                 unit |-> "mV", uncertainty |-> "none", definition |-> "X", reference |-> "none", value_origin |-> "none"]
 Init == g = [x \in All |-> Base(x)] /\ nmut = 0
 TextC == {"X", "Xv", "Y"}          \* Xv: X in another case / with other whitespace
 Mut(x) ==
    (IF x \in Roots THEN {} ELSE {[f |-> "present", v |-> FALSE]}) \cup
-   {[f |-> "definition", v |-> c] : c \in TextC} \cup
+   {[f |-> "definition", v |-> c] : c \in TextC \cup {"none"}} \cup
    (IF x \in Secs THEN {[f |-> "reference", v |-> c] : c \in TextC} ELSE {}) \cup
    (IF x \in {"Ds", "Ss"} THEN {[f |-> "type", v |-> "u"], [f |-> "name", v |-> "b"]} ELSE {}) \cup
    (IF x \in Props THEN {[f |-> "dtype", v |-> d] : d \in {"float", "string"}} \cup
-                        {[f |-> "unit", v |-> u] : u \in {"mV", "kHz"}} \cup
+                        {[f |-> "unit", v |-> u] : u \in {"mV", "kHz", "MV", "none"}} \cup
                         {[f |-> "uncertainty", v |-> u] : u \in {"0", "0.5", "2"}} \cup
                         {[f |-> "value_origin", v |-> c] : c \in TextC} \cup
                         {[f |-> "reference", v |-> c] : c \in {"X", "Y"}} \cup
-                        {[f |-> "vals", v |-> c] : c \in {"v45", "text", "empty", "float"}}
+                        {[f |-> "vals", v |-> c] : c \in {"v45", "text", "empty", "float", "mixed"}}
     ELSE {})
 Next == /\ nmut < MaxMut
         /\ nmut' = nmut + 1
